@@ -34,6 +34,11 @@ EvOf(api) ==
 \* C11 on the model: the monitor records no violation for any entry point on this input
 NoViolation == \A j \in 1..Len(Apis) : MonOneShotDecode(XInit, EvOf(Apis[j])).viol = <<>>
 
+\* Layer I's Encoding::for_bom agrees with the BOM table of the contract layer on this input (C10)
+ForBomOK ==
+  LET b == ForBomImpl(input)
+  IN  MonForBom(XInit, [ev |-> "BM", h |-> 1, bytes |-> input, name |-> b.enc, len |-> b.len]).viol = <<>>
+
 \* the second allocation is really exercised somewhere in the explored space (vacuity guard, read from the export)
 Export ==
   PrintT(<<"HIST", ToJson([enc |-> EncName, input |-> input,
